@@ -210,7 +210,9 @@ def run(repo: Repo, chk: Check) -> None:
         for epa, epb in itertools.product((False, True), repeat=2):
             addr_outs = (LT, EQ, GT) if ka == kb else (EQ,)
             for ao in addr_outs:
-                ep_outs = (LT, EQ, GT) if (ka == kb and ao == EQ and epa and epb) else (EQ,)
+                same = ka == kb and ao == EQ
+                # an absent entrypoint is the entrypoint `default`: against a named one the order is that of 'default' and the name (either way)
+                ep_outs = (LT, EQ, GT) if (same and epa and epb) else (LT, GT) if (same and epa != epb) else (EQ,)
                 for eo in ep_outs:
                     if ka == kb and ao == EQ and not epa and not epb:
                         want = 0
@@ -220,8 +222,6 @@ def run(repo: Repo, chk: Check) -> None:
                         want = -1 if curve[ka] < curve[kb] else 1
                     elif ao != EQ:
                         want = spec_lex([ao])
-                    elif epa != epb:
-                        want = None  # default entrypoint vs a named one: order of 'default' against the name, not decided here
                     else:
                         want = spec_lex([eo])
                     if want is None:
@@ -401,7 +401,18 @@ class AddrHooks(Hooks):
             if a.side == b.side:
                 return EQ
             return self.eo if a.side == 'a' else flip(self.eo)
+        # an absent entrypoint compared as a string: '' is below every name; the constant 'default' stands for the absent side's entrypoint
         if isinstance(a, EpPart) and isinstance(b, str):
+            if b == '':
+                return GT
+            if b == 'default':
+                return self.eo if a.side == 'a' else flip(self.eo)
+            return None
+        if isinstance(a, str) and isinstance(b, EpPart):
+            if a == '':
+                return LT
+            if a == 'default':
+                return self.eo if b.side == 'b' else flip(self.eo)
             return None
         return None
 
